@@ -405,7 +405,7 @@ def rule_v(idx: ProgramIndex, rep: Report, records: Dict[str, CtorRecord]):
                     if not changes_dtype:
                         continue
                     # which container does the receiver iterate?
-                    src = _iter_source(sc, fn, rname)
+                    src = _iter_source(sc, fn, rname, n)
                     if src is None:
                         continue
                     tests = _guards(sc.node, n)
@@ -432,9 +432,11 @@ def rule_v(idx: ProgramIndex, rep: Report, records: Dict[str, CtorRecord]):
         raise AnalysisError(f"only {n_defs} to/type definitions found on operator classes (expected >= 5)")
 
 
-def _iter_source(sc: FunctionInfo, top: FunctionInfo, name: str) -> Optional[str]:
+def _iter_source(sc: FunctionInfo, top: FunctionInfo, name: str, at: Optional[ast.AST] = None) -> Optional[str]:
     """'args' / 'kwargs' if `name` is a loop variable over self._args / self._kwargs(.items()/.values()),
-    or a parameter of a nested helper called with such a variable."""
+    or a parameter of a nested helper called with such a variable.  When the use site `at` is given, a loop that encloses it
+    wins (the same variable name may be used by the loop over the arguments and by the loop over the keywords)."""
+    found: List[Tuple[bool, int, str]] = []
     for f in (sc, top):
         for n in ast.walk(f.node):
             it = None
@@ -447,10 +449,17 @@ def _iter_source(sc: FunctionInfo, top: FunctionInfo, name: str) -> Optional[str
             if name not in names:
                 continue
             txt = norm(it)
-            if "self._args" in txt:
-                return "args"
-            if "self._kwargs" in txt or "_differentiable_kwargs" in txt:
-                return "kwargs"
+            kind = "args" if "self._args" in txt else ("kwargs" if ("self._kwargs" in txt or "_differentiable_kwargs" in txt) else None)
+            if kind is None:
+                continue
+            holder = n
+            if isinstance(n, ast.comprehension):
+                holder = next((c_ for c_ in ast.walk(f.node) if isinstance(c_, (ast.ListComp, ast.SetComp, ast.DictComp, ast.GeneratorExp))
+                               and n in c_.generators), n)
+            encloses = at is not None and any(x is at for x in ast.walk(holder))
+            found.append((not encloses, len(found), kind))
+    if found:
+        return sorted(found)[0][2]
     if sc is not top and name in sc.all_param_names():
         # helper parameter: find calls of the helper in top with a loop variable
         for n in ast.walk(top.node):
@@ -585,21 +594,62 @@ def rule_n(idx: ProgramIndex, rep: Report):
                             node = n
             if bad_kind is None:
                 continue
-            tests = _guards(fn.node, node)
-            guarded = False
-            for t in tests:
-                for c in ast.walk(t):
+            # flags computed once from the optional (dtype_requested = dtype is not None) stand for their definition
+            flag_defs: Dict[str, ast.AST] = {}
+            counts_: Dict[str, int] = {}
+            for a_ in walk_body(fn):
+                if isinstance(a_, ast.Assign) and len(a_.targets) == 1 and isinstance(a_.targets[0], ast.Name):
+                    counts_[a_.targets[0].id] = counts_.get(a_.targets[0].id, 0) + 1
+                    if isinstance(a_.value, (ast.Compare, ast.BoolOp, ast.UnaryOp)):
+                        flag_defs[a_.targets[0].id] = a_.value
+            flag_defs = {k: v for k, v in flag_defs.items() if counts_.get(k) == 1 and k not in names}
+
+            def tests_none(e: ast.AST, depth: int = 0) -> bool:
+                for c in ast.walk(e):
                     if (isinstance(c, ast.Compare) and isinstance(c.left, ast.Name) and c.left.id == var
                             and len(c.ops) == 1 and isinstance(c.ops[0], (ast.Is, ast.IsNot))
                             and isinstance(c.comparators[0], ast.Constant) and c.comparators[0].value is None):
-                        guarded = True
+                        return True
+                    if isinstance(c, ast.Name) and c.id in flag_defs and depth < 2 and tests_none(flag_defs[c.id], depth + 1):
+                        return True
+                return False
+
+            if isinstance(node, ast.Dict):
+                # a display that is only ever expanded into tensor.to(**d) / .type(**d) is not a store into the record:
+                # torch accepts dtype=None / device=None there
+                holder = next((a_.targets[0].id for a_ in walk_body(fn) if isinstance(a_, ast.Assign) and a_.value is node
+                               and len(a_.targets) == 1 and isinstance(a_.targets[0], ast.Name)), None)
+                holders = {holder} if holder is not None else set()
+                alias_reads = set()
+                grew = True
+                while grew and holders:  # to_kwargs = cast_and_move if keeps_kind else move_only
+                    grew = False
+                    for a_ in walk_body(fn):
+                        if isinstance(a_, ast.Assign) and len(a_.targets) == 1 and isinstance(a_.targets[0], ast.Name):
+                            v_ = a_.value
+                            parts = [v_.body, v_.orelse] if isinstance(v_, ast.IfExp) else [v_]
+                            if all(isinstance(p_, ast.Name) for p_ in parts) and any(p_.id in holders for p_ in parts):
+                                alias_reads |= {id(p_) for p_ in parts}
+                                if a_.targets[0].id not in holders:
+                                    holders.add(a_.targets[0].id)
+                                    grew = True
+                uses = [c_ for c_ in walk_body(fn) if isinstance(c_, ast.Call) and any(
+                    k.arg is None and ((k.value is node) or (isinstance(k.value, ast.Name) and k.value.id in holders))
+                    for k in c_.keywords)]
+                other_reads = any(isinstance(x_, ast.Name) and x_.id in holders and isinstance(x_.ctx, ast.Load)
+                                  and id(x_) not in alias_reads and not any(k.value is x_ for c_ in uses for k in c_.keywords)
+                                  for x_ in walk_body(fn))
+                if uses and not other_reads and all(isinstance(c_.func, ast.Attribute) and c_.func.attr in ("to", "type") for c_ in uses):
+                    rep.ok("C14.N", {"function": _fname(fn), "use": bad_kind, "note": "keywords of tensor.to(**...) only"})
+                    continue
+            tests = _guards(fn.node, node)
+            guarded = any(tests_none(t) for t in tests)
             # `dtype is None or dtype.x` inside one BoolOp
             if not guarded:
                 for b in ast.walk(fn.node):
                     if isinstance(b, ast.BoolOp) and any(x is node for v in b.values for x in ast.walk(v)):
                         first = b.values[0]
-                        if (isinstance(first, ast.Compare) and isinstance(first.left, ast.Name) and first.left.id == var
-                                and isinstance(first.comparators[0], ast.Constant) and first.comparators[0].value is None):
+                        if tests_none(first) and not any(x is node for x in ast.walk(first)):
                             guarded = True
             if not guarded:
                 guarded = _none_excluded_on_every_path(fn, var, node)
@@ -706,7 +756,15 @@ def rule_p3(idx: ProgramIndex, rep: Report):
         init = idx.resolve_method(c, "__init__")
         if init is None or init.cls is base:
             continue
-        params = set(init.params())
+        params = set(init.all_param_names())
+        grew = True
+        while grew:  # locals computed from constructor arguments (one = torch.ones(..., dtype=dtype); self._dtype = one.dtype)
+            grew = False
+            for n in walk_body(init):
+                if isinstance(n, ast.Assign) and len(n.targets) == 1 and isinstance(n.targets[0], ast.Name) and n.targets[0].id not in params \
+                        and any(isinstance(x, ast.Name) and x.id in params for x in ast.walk(n.value)):
+                    params.add(n.targets[0].id)
+                    grew = True
         fixed = [n for n in walk_body(init) if isinstance(n, ast.Assign) and any(
             isinstance(t, ast.Attribute) and isinstance(t.value, ast.Name) and t.value.id == "self" and t.attr == attr for t in n.targets)
             and not any(isinstance(x, ast.Name) and x.id in params for x in ast.walk(n.value))]
@@ -721,11 +779,23 @@ def rule_p3(idx: ProgramIndex, rep: Report):
                     if isinstance(n, ast.Assign) and isinstance(n.value, ast.Call) and "_to_helper" in norm(n.value.func):
                         for t in n.targets:
                             target |= {x.id for x in ast.walk(t) if isinstance(x, ast.Name) and "dtype" in x.id}
+                changed = True
+                while changed:  # locals computed from the requested dtype (new_dtype = self._dtype if dtype is None else dtype)
+                    changed = False
+                    for n in walk_body(fn):
+                        if isinstance(n, ast.Assign) and len(n.targets) == 1 and isinstance(n.targets[0], ast.Name) \
+                                and n.targets[0].id not in target and any(isinstance(x, ast.Name) and x.id in target for x in ast.walk(n.value)):
+                            target.add(n.targets[0].id)
+                            changed = True
                 for n in walk_body(fn):
                     if isinstance(n, ast.Assign) and any(isinstance(t, ast.Attribute) and t.attr == attr and not (
                             isinstance(t.value, ast.Name) and t.value.id == "self") for t in n.targets) \
                             and any(isinstance(x, ast.Name) and x.id in target for x in ast.walk(n.value)):
                         ok = True  # res._dtype = dtype (the result, not self: C12.W / C13.D forbid re-typing the receiver)
+                    if isinstance(n, ast.Assign) and any(isinstance(t, ast.Subscript) and isinstance(t.slice, ast.Constant)
+                                                         and t.slice.value == "dtype" for t in n.targets) \
+                            and any(isinstance(x, ast.Name) and x.id in target for x in ast.walk(n.value)):
+                        ok = True  # new_kwargs["dtype"] = dtype: the keyword record of the rebuilt operator
                     if isinstance(n, ast.Call) and any(k.arg == "dtype" and any(isinstance(x, ast.Name) and x.id in target for x in ast.walk(k.value))
                                                        for k in n.keywords) and (
                             (isinstance(n.func, ast.Attribute) and n.func.attr == "__class__") or idx.class_of_expr(fn.module, n.func) is not None):
